@@ -9,6 +9,7 @@ import (
 	"sort"
 	"strconv"
 	"strings"
+	"time"
 	"unicode"
 
 	"golang.org/x/tools/go/ssa"
@@ -36,6 +37,8 @@ type aeCtx struct {
 	assumed        map[string]string // relation atoms that are assumptions (out-of-fragment stages): key -> why
 	steps          int
 	stepLimit      int
+	started        time.Time
+	budget         time.Duration   // wall-clock budget of one context: beyond it the analysis gives up (undecided)
 	orderedConst   map[string]bool // term is compared by order (not just equality) with constants
 	stageMode      bool
 	allowFirst     bool                         // model "i == 0" inside a zip loop as a position class (used by C14's queries only)
@@ -69,6 +72,7 @@ func newAECtx(p *Prog) *aeCtx {
 	}
 	c.stages = p.aeStages
 	c.stageMode = true
+	c.started, c.budget = time.Now(), 75*time.Second
 	c.noStage, c.directRead, c.stageBases = map[*ssa.Function]bool{}, map[string]bool{}, map[string][]*ssa.Function{}
 	return c
 }
@@ -706,6 +710,9 @@ func (r *aeRun) exec(fr *frame, b *ssa.BasicBlock, pred *ssa.BasicBlock) any {
 		r.ctx.steps++
 		if r.ctx.steps > r.ctx.stepLimit {
 			r.oof("step budget exhausted")
+		}
+		if r.ctx.steps&0xffff == 0 && time.Since(r.ctx.started) > r.ctx.budget {
+			panic(tooLarge{})
 		}
 		skipPhis := false
 		if l := r.ctx.loopAt(b); l != nil {
